@@ -66,6 +66,8 @@ class FsSeam:
         torn: float | None = None,
         error_at: int | None = None,
         error_errno: int = _errno.ENOSPC,
+        hard: bool = False,
+        error_persistent: bool = False,
     ) -> None:
         self.watch_root = os.path.realpath(watch_root)
         self.sandbox_root = os.path.dirname(self.watch_root)  # harness-owned files (config, documents, fresh trees) live here
@@ -74,6 +76,12 @@ class FsSeam:
         self.torn = torn
         self.error_at = error_at
         self.error_errno = error_errno
+        # hard: the crash is a KILL - nothing the unwinding code (finally / except clean-ups) does reaches the disk any
+        # more; soft (default): the crash is an exception such as KeyboardInterrupt, clean-up handlers run normally
+        self.hard = hard
+        self.dead = False
+        # persistent: the errno condition stays (a full disk stays full): every mutating op from error_at on fails
+        self.error_persistent = error_persistent
         self.k = 0
         self.log: list[dict] = []
         self.fired: str | None = None
@@ -122,6 +130,10 @@ class FsSeam:
                 self.fired = self.fired or "escape-blocked"
                 raise SimEscape(f"blocked {op} on {path}: outside the sandbox")
             return rec
+        if self.dead:
+            rec = {"k": None, "op": op, "path": self._rel(path), "ok": False, "fault": "after-kill"}
+            self.log.append(rec)
+            raise SimCrash(f"{op} {rec['path']} attempted by a killed process")
         k = self.k
         self.k += 1
         rec = {"k": k, "op": op, "path": self._rel(path), "ok": None}
@@ -130,12 +142,13 @@ class FsSeam:
         if self.crash_at is not None and k == self.crash_at and not (op == "write" and self.torn is not None):
             rec["ok"] = False
             rec["fault"] = "crash-before"
-            self.fired = "crash-before"
+            self.fired = "crash-before" if not self.hard else "kill-before"
+            self.dead = self.hard
             raise SimCrash(f"crash before op {k} {op} {rec['path']}")
-        if self.error_at is not None and k == self.error_at:
+        if self.error_at is not None and (k == self.error_at or (self.error_persistent and k > self.error_at)):
             rec["ok"] = False
             rec["fault"] = f"errno-{_errno.errorcode.get(self.error_errno, self.error_errno)}"
-            self.fired = rec["fault"]
+            self.fired = self.fired or (rec["fault"] + ("-persistent" if self.error_persistent else ""))
             raise OSError(self.error_errno, os.strerror(self.error_errno), path)
         return rec
 
@@ -171,7 +184,8 @@ class FsSeam:
                 rec["ok"] = False
                 rec["fault"] = "torn-write"
                 rec["torn_len"] = n
-                self.fired = "torn-write"
+                self.fired = "torn-write" if not self.hard else "kill-torn-write"
+                self.dead = self.hard
             raise SimCrash(f"torn write at op {rec['k']} {rec['path']} ({n}/{len(data)})")
         try:
             out = f.write(data)
